@@ -110,6 +110,55 @@ def _expfmt(x):
     return x
 
 
+# --- verification hook (off unless ACCELFORGE_VERIF=1 and a schedule seed is set) --------
+# Lets a test harness perturb the order in which jobs are executed/submitted and the order
+# in which unordered results arrive, deterministically from a seed. With the guard off
+# nothing below is reached.
+_VERIF_CALL_COUNTER = [0]
+
+
+def _verif_schedule():
+    if os.environ.get("ACCELFORGE_VERIF") != "1":
+        return None
+    seed = os.environ.get("ACCELFORGE_VERIF_SCHEDULE_SEED")
+    if not seed:
+        return None
+    import random
+
+    _VERIF_CALL_COUNTER[0] += 1
+    rnd = random.Random(f"{seed}:{_VERIF_CALL_COUNTER[0]}")
+    mode = os.environ.get("ACCELFORGE_VERIF_SCHEDULE_MODE", "both")
+    jitter_ms = float(os.environ.get("ACCELFORGE_VERIF_SCHEDULE_JITTER_MS", "0") or 0)
+
+    def log(kind, n, perm):
+        path = os.environ.get("ACCELFORGE_VERIF_SCHEDULE_LOG")
+        if path and n > 1:
+            with open(path, "a") as f:
+                f.write(f"{os.getpid()} {_VERIF_CALL_COUNTER[0]} {kind} {n} {hash(tuple(perm)) & 0xFFFFFFFF}\n")
+
+    def perm(n, kind):
+        p = list(range(n))
+        if mode in ("both", kind):
+            rnd.shuffle(p)
+        log(kind, n, p)
+        return p
+
+    def jitter(job):
+        if jitter_ms <= 0:
+            return job
+        delay = rnd.random() * jitter_ms / 1000.0
+        return delayed(_verif_sleep_then)(delay, job)
+
+    return perm, jitter
+
+
+def _verif_sleep_then(delay, job):
+    import time
+
+    time.sleep(delay)
+    return job[0](*job[1], **job[2])
+
+
 def _dict_job(key, f):
     r = f[0](*f[1], **f[2])
     return key, r
@@ -170,6 +219,18 @@ def parallel(
 
     jobs = list(jobs)
 
+    _verif = _verif_schedule()
+    if _verif is not None and (n_jobs == 1 or len(jobs) == 1):
+        # Serial path under the hook: execute in a seeded order; unordered returns also
+        # arrive in a (second) seeded order. Results of list returns keep their index.
+        _exec = _verif[0](len(jobs), "exec")
+        _res = [None] * len(jobs)
+        for _i in _exec:
+            _res[_i] = jobs[_i][0](*jobs[_i][1], **jobs[_i][2])
+        if return_as == "generator_unordered":
+            return [_res[_i] for _i in _verif[0](len(jobs), "arrival")]
+        return _res
+
     if n_jobs == 1 or len(jobs) == 1:
         if pbar:
             jobs = tqdm(
@@ -189,6 +250,9 @@ def parallel(
         if pbar:
             pbar.close()
 
+    if _verif is not None and return_as == "generator_unordered":
+        jobs = [_verif[1](jobs[_i]) for _i in _verif[0](len(jobs), "exec")]
+
     if return_as in ["generator", "generator_unordered"]:
         return yield_results()
 
@@ -198,6 +262,8 @@ def parallel(
         return i, job[0](*job[1], **job[2])
 
     jobs = [delayed(f)(i, job) for i, job in enumerate(jobs)]
+    if _verif is not None:
+        jobs = [_verif[1](jobs[_i]) for _i in _verif[0](len(jobs), "exec")]
     results = [None] * total_jobs
     args["return_as"] = "generator_unordered"
     for i, result in yield_results():
